@@ -269,15 +269,20 @@ Definition is_f_delim (d : text) : bool := text_eqb d [c_f] || starts_with [c_f;
 
 Inductive outcome := Ok (ms : list tree) | Lex | Premature | PyErr (e : pyexc) | OutOfFuel.
 
+(* what the model does not decide itself *)
+Record oracles := {
+  numeric : text -> bool;                (* as_identifier yields Integer/Float/Complex for this text *)
+  decode : bool -> text -> option text;  (* escape decoding; first argument: bytes literal; None: the codec raises *)
+  pyspace : N -> bool;                   (* c.strip() == "" *)
+  mk : nat -> nat -> tree -> tree        (* fill_pos: [At], or the identity for the position-free reader *)
+}.
+
 Section Reader.
-  Variable numeric : text -> bool.                (* as_identifier yields Integer/Float/Complex *)
-  Variable decode : bool -> text -> option text.  (* escape decoding; first argument: bytes literal *)
-  Variable pyspace : N -> bool.                   (* c.strip() == "" *)
-  Variable mk : nat -> nat -> tree -> tree.       (* fill_pos: [At], or the identity for the position-free reader *)
+  Variable orc : oracles.
 
   (* as_identifier(ident, reader=self); None = LexException *)
   Definition as_identifier (ident : text) : option tree :=
-    if numeric ident then Some (Num ident)
+    if numeric orc ident then Some (Num ident)
     else if mem ch_dot ident then
       if forallb is_dot ident then Some (Sym ident)
       else
@@ -287,7 +292,7 @@ Section Reader.
         else
           let head := takewhile is_dot ident in
           let parts := split_dots body in
-          if existsb numeric parts then None
+          if existsb (numeric orc) parts then None
           else Some (match head with
                      | [] => sym_expr [ch_dot] (map Sym parts)
                      | _ => sym_expr head (Sym none_name :: map Sym parts)
@@ -299,10 +304,10 @@ Section Reader.
     let v := norm_nl false body in
     if bytes && negb (forallb is_ascii v) then inr ESyntaxError
     else if rawp then inl v
-    else match decode bytes v with Some d => inl d | None => inr EValueError end.
+    else match decode orc bytes v with Some d => inl d | None => inr EValueError end.
 
   Definition add_str (v : text) (a b : nat) (acc : list tree) : list tree :=
-    match v with [] => acc | _ => mk a b (Str v None) :: acc end.
+    match v with [] => acc | _ => mk orc a b (Str v None) :: acc end.
 
   Section Bodies.
     Variable rec : mode -> text -> res.
@@ -402,7 +407,7 @@ Section Reader.
       match r with
       | [] => RPrem
       | c2 :: r2 =>
-        if pyspace c2 then RPrem else
+        if pyspace orc c2 then RPrem else
         let '(id0, r0) := span_ident r in
         let '(ident, r1) := match id0 with [] => ([c2], r2) | _ => (id0, r0) end in
         match lookup (c_hash :: ident) reader_table with
@@ -434,7 +439,7 @@ Section Reader.
                     | None => read_default c r
                     end in
         match convert body with
-        | RTry (Some m) rest => RTry (Some (mk (length r) (length rest) m)) rest
+        | RTry (Some m) rest => RTry (Some (mk orc (length r) (length rest) m)) rest
         | x => x
         end
       end.
@@ -485,6 +490,24 @@ Section Reader.
       | ScPy e => RPy e
       end.
 
+    (* read_fcomponent, from the conversion's slurp_space on *)
+    Definition field_after (rawp tmode dbg : bool) (start : nat) (values : list tree) (m : tree) (form_text : text)
+                           (conv : option N) (s6 : text) : res :=
+      match slurp s6 with
+      | c :: r =>
+          if c =? c_colon then
+            match rec (MParts ClBrace rawp false (length r) []) r with
+            | RParts fcs rest =>
+                RParts (values ++ [mk orc start (length rest) (FComp tmode conv form_text (m :: fcs))]) rest
+            | x => x
+            end
+          else if c =? c_rbrace then
+            let conv' := match conv with None => if dbg then Some c_r else None | _ => conv end in
+            RParts (values ++ [mk orc start (length r) (FComp tmode conv' form_text [m])]) r
+          else RLex
+      | [] => RLex
+      end.
+
     (* read_fcomponent *)
     Definition field_body (rawp tmode : bool) (s : text) : res :=
       let start := length s in
@@ -493,34 +516,17 @@ Section Reader.
       | ROne m s2 =>
         let form_text := firstn (length s1 - length s2) s1 in
         let s3 := slurp s2 in
-        let '(dbg, s5) := match s3 with
-                          | c :: s4 => if c =? c_eq then (true, slurp s4) else (false, s3)
-                          | [] => (false, s3)
-                          end in
-        let values := if dbg then [mk start (length s5) (Str (firstn (length s - length s5) s) None)] else [] in
-        let after_conv (conv : option N) (s6 : text) : res :=
-          match slurp s6 with
-          | c :: r =>
-              if c =? c_colon then
-                match rec (MParts ClBrace rawp false (length r) []) r with
-                | RParts fcs rest =>
-                    RParts (values ++ [mk start (length rest) (FComp tmode conv form_text (m :: fcs))]) rest
-                | x => x
-                end
-              else if c =? c_rbrace then
-                let conv' := match conv with None => if dbg then Some c_r else None | _ => conv end in
-                RParts (values ++ [mk start (length r) (FComp tmode conv' form_text [m])]) r
-              else RLex
-          | [] => RLex
-          end in
+        let dbg := match s3 with c :: _ => c =? c_eq | [] => false end in
+        let s5 := if dbg then slurp (tl s3) else s3 in
+        let values := if dbg then [mk orc start (length s5) (Str (firstn (length s - length s5) s) None)] else [] in
         match s5 with
         | c :: r => if c =? c_bang then
                       match r with
-                      | c2 :: r2 => after_conv (Some c2) r2
+                      | c2 :: r2 => field_after rawp tmode dbg start values m form_text (Some c2) r2
                       | [] => RLex
                       end
-                    else after_conv None s5
-        | [] => after_conv None s5
+                    else field_after rawp tmode dbg start values m form_text None s5
+        | [] => field_after rawp tmode dbg start values m form_text None s5
         end
       | x => x
       end.
